@@ -1,3 +1,51 @@
-From Coq Require Import List.
-Theorem C13_placeholder : True. Proof. exact I. Qed.
-Print Assumptions C13_placeholder.
+(* C13 — gradients: forward-mode (dual-number) evaluation
+   Property theorems only: each is closed by `exact <lemma>`; proofs live in the imported files. *)
+From Coq Require Import List ZArith QArith Qcanon Ring_theory Field_theory Permutation Sorted.
+Import ListNotations.
+From CK Require Import Base.
+From CK Require Import Circ.
+From CK Require Import Hom.
+Close Scope Qc_scope. Close Scope Q_scope. Close Scope Z_scope. Open Scope nat_scope.
+
+(* dual numbers over a commutative semiring form a commutative semiring, so every theorem about circuits (denotation, folding, operators) holds for value-and-tangent evaluation *)
+Theorem C13_dual_semiring :
+  forall (R : Type) (rO rI : R) (radd rmul : R -> R -> R),
+         semi_ring_theory rO rI radd rmul eq ->
+         semi_ring_theory (d0 R rO) (d1 R rO rI) (dadd R radd) (dmul R radd rmul) eq.
+Proof. exact dual_semiring. Qed.
+Print Assumptions C13_dual_semiring.
+
+(* the primal part of the dual-number evaluation is the ordinary evaluation *)
+Theorem C13_dual_primal :
+  forall (R : Type) (rO : R) (radd rmul : R -> R -> R) (D : Type) (c : circuit (dual R) D) (y : asg D),
+         map (map fst) (eval (dual R) (d0 R rO) (dadd R radd) (dmul R radd rmul) D c y) =
+         eval R rO radd rmul D (map_circuit (dual R) R D fst c) y.
+Proof. exact dual_primal. Qed.
+Print Assumptions C13_dual_primal.
+
+(* a circuit whose parameters carry zero tangent has zero tangent *)
+Theorem C13_constants_zero_tangent :
+  forall (R : Type) (rO rI : R) (radd rmul : R -> R -> R),
+         semi_ring_theory rO rI radd rmul eq ->
+         forall (D : Type) (c : circuit R D) (y : asg D),
+         eval (dual R) (d0 R rO) (dadd R radd) (dmul R radd rmul) D (map_circuit R (dual R) D (dconst R rO) c)
+           y = map (map (dconst R rO)) (eval R rO radd rmul D c y).
+Proof. exact dual_const. Qed.
+Print Assumptions C13_constants_zero_tangent.
+
+(* the tangent of a product follows the Leibniz rule *)
+Theorem C13_leibniz :
+  forall (R : Type) (radd rmul : R -> R -> R) (x y : dual R),
+         snd (dmul R radd rmul x y) = radd (rmul (fst x) (snd y)) (rmul (snd x) (fst y)).
+Proof. exact snd_dmul. Qed.
+Print Assumptions C13_leibniz.
+
+(* a polynomial evaluated at (x, 1) gives (p(x), p'(x)) with p' the formal derivative computed by the model's PolynomialDifferential *)
+Theorem C13_polynomial_derivative :
+  forall (R : Type) (rO rI : R) (radd rmul : R -> R -> R),
+         semi_ring_theory rO rI radd rmul eq ->
+         forall (p : list R) (x : R),
+         horner (dual R) (d0 R rO) (dadd R radd) (dmul R radd rmul) (map (dconst R rO) p) (dvar R rI x) =
+         (horner R rO radd rmul p x, horner R rO radd rmul (pdiff1 R rI radd rmul p) x).
+Proof. exact horner_dual. Qed.
+Print Assumptions C13_polynomial_derivative.
